@@ -25,6 +25,11 @@ type verifLeaseStore struct {
 	loseRepl bool // the request is executed but its reply is lost
 	evals    int
 	badLua   string
+	// between two store commands of one election call the rest of the world may move: time passes
+	// and another instance campaigns (a script runs atomically, a sequence of commands does not)
+	cmdInCall  int
+	envStep    func()
+	envStepped bool
 }
 
 var verifErrLost = errors.New("fake: i/o timeout")
@@ -190,6 +195,10 @@ func verifToLua(a interface{}) verifLuaVal {
 }
 
 func (s *verifLeaseStore) Do(cmd string, args ...interface{}) (interface{}, error) {
+	s.cmdInCall++
+	if s.cmdInCall > 1 && s.envStep != nil {
+		s.envStep()
+	}
 	if s.loseCall {
 		return nil, verifErrLost
 	}
@@ -312,6 +321,18 @@ func VerifC15Step() {
 	e := &redisElection{key: "lease", cli: st, ttl: ttl, id: idA}
 	op := verifChoose("op", 3)
 	ctx := context.Background()
+	st.envStep = func() {
+		if verifChoose("env", 2) == 1 {
+			dt := verifI64("envdt")
+			verifAssume(verifAnd(dt >= 0, dt < 1<<20))
+			st.now += dt
+			st.envStepped = true
+			if !st.live() {
+				// another instance's campaign finds no unexpired lease and takes it
+				st.exists, st.value, st.expireAt = true, idO, st.now+int64(ttl)
+			}
+		}
+	}
 	unchanged := func() bool {
 		// observable state only: an expired record and an absent one are the same store
 		preLive := preExists && st.now < preExpire
@@ -345,15 +366,20 @@ func VerifC15Step() {
 		if st.loseRepl {
 			verifAssert(!told, "C15.told-leader-without-reply")
 		} else {
-			verifAssert(told == !heldByOther, "C15.success-iff-holder-or-free")
+			if !st.envStepped {
+				// (the property states "only": it does not oblige a renewal to succeed on a free lease)
+				verifAssert(verifImplies(told, !heldByOther), "C15.success-while-held-by-another")
+			}
+			if told {
+				// told leader => the lease is the caller's, unexpired, and ends within one period from now
+				verifAssert(st.live() && st.value == idA && st.expireAt <= st.now+int64(ttl), "C15.told-leader-without-own-lease")
+			}
 			if op == 1 && !told {
 				verifAssert(errors.Is(err, ErrNotLeader), "C15.failed-renew-not-reported-as-loss")
 			}
 		}
-		if heldByOther {
+		if heldByOther && !st.envStepped {
 			verifAssert(unchanged(), "C15.refusal-changes-lease")
-		} else {
-			verifAssert(st.exists && st.value == idA && st.expireAt == st.now+int64(ttl), "C15.lease-not-exactly-ttl")
 		}
 		verifCover(told, "c15.told-leader")
 		verifCover(heldByOther, "c15.refused")
